@@ -125,6 +125,8 @@ func scriptedHandler3(script, pre []WrOp, probe *handlerProbe, abortOnErr bool) 
 				if f, ok := w.(http.Flusher); ok {
 					f.Flush()
 				}
+			case "cflush": // the way httputil.ReverseProxy flushes: through a ResponseController (prefers FlushError, follows Unwrap)
+				http.NewResponseController(w).Flush()
 			case "abort": // what httputil.ReverseProxy does when the backend dies mid-body
 				panic(http.ErrAbortHandler)
 			}
@@ -296,7 +298,7 @@ func runWrCase(c WrCase) (string, map[string]int) {
 			script = append(script, fmt.Sprintf("CHead %d", op.Code))
 		case "write":
 			script = append(script, fmt.Sprintf("CWrite (PRaw %d)", op.N))
-		case "flush":
+		case "flush", "cflush":
 			script = append(script, "CFlush")
 		}
 	}
@@ -415,12 +417,12 @@ func genWrCase(g *Rng) WrCase {
 		}[g.Intn(7)]
 	}
 	if g.Chance(8) { // a Flush before anything else: the header block goes out with the implicit 200
-		c.Script = append(c.Script, WrOp{K: "flush"})
+		c.Script = append(c.Script, WrOp{K: []string{"flush", "cflush"}[g.Intn(2)]})
 	}
 	status := 200
 	explicit := g.Chance(65)
 	if explicit {
-		status = []int{200, 200, 201, 204, 304, 301, 302, 404, 404, 500, 503, 202, 400}[g.Intn(13)]
+		status = []int{200, 200, 201, 204, 304, 301, 302, 404, 404, 500, 503, 202, 400, 413, 429, 416}[g.Intn(16)]
 	}
 	total := []int{0, 1, limit - 1, limit, limit + 1, limit + 7, gz.GzMin - 1, gz.GzMin, gz.GzMin + 1, g.Range(0, 60), 2 * limit}[g.Intn(11)]
 	if total < 0 {
@@ -450,7 +452,7 @@ func genWrCase(g *Rng) WrCase {
 		c.Script = append(c.Script, WrOp{K: "write", N: n})
 		rem -= n
 		if !declareCL && g.Chance(20) {
-			c.Script = append(c.Script, WrOp{K: "flush"})
+			c.Script = append(c.Script, WrOp{K: []string{"flush", "flush", "cflush"}[g.Intn(3)]})
 		}
 	}
 	if g.Chance(8) {
@@ -523,6 +525,13 @@ func wrCorpus() []WrCase {
 		{Chain: []WrPlug{gz(16, false)}, AE: "gzip", Method: "GET", Script: []WrOp{{K: "set", Key: 1, Val: 0}, {K: "set", Key: 2, Val: 10489856}, {K: "head", Code: 206}, {K: "write", N: 10489856}}},
 		{Chain: []WrPlug{gz(16, false)}, AE: "gzip", Method: "GET", Script: []WrOp{{K: "set", Key: 1, Val: 0}, {K: "set", Key: 2, Val: 20000000}, {K: "head", Code: 304}}},
 		{Chain: []WrPlug{gz(16, false)}, AE: "gzip", Method: "GET", Script: []WrOp{{K: "set", Key: 1, Val: 0}, {K: "set", Key: 2, Val: 10485760}, {K: "head", Code: 404}, {K: "write", N: 10485760}}},
+		// a recorded status other than 200 and a controller flush before the first byte (a backend that announces trailers)
+		{Chain: []WrPlug{sl(10, 100)}, AE: "\x00", Method: "GET", Script: []WrOp{{K: "set", Key: 1, Val: 2}, {K: "head", Code: 201}, {K: "cflush"}, {K: "write", N: 5}}},
+		{Chain: []WrPlug{{Name: "logging"}, sl(10, 100)}, AE: "\x00", Method: "GET", Script: []WrOp{{K: "head", Code: 404}, {K: "cflush"}, {K: "write", N: 5}, {K: "cflush"}}},
+		// the backend's own 413 with a declared length: within the limits nothing of it changes (body beyond net/http's buffer, HEAD)
+		{Chain: []WrPlug{sl(10, 4000)}, AE: "\x00", Method: "GET", Script: []WrOp{{K: "set", Key: 1, Val: 2}, {K: "set", Key: 2, Val: 3000}, {K: "head", Code: 413}, {K: "write", N: 3000}}},
+		{Chain: []WrPlug{sl(10, 4000)}, AE: "\x00", Method: "HEAD", Script: []WrOp{{K: "set", Key: 2, Val: 3000}, {K: "head", Code: 413}}},
+		{Chain: []WrPlug{sl(10, 4000)}, AE: "\x00", Method: "GET", Script: []WrOp{{K: "set", Key: 2, Val: 3000}, {K: "head", Code: 429}, {K: "write", N: 1000}, {K: "flush"}, {K: "write", N: 2000}}},
 		// an Upgrade request answered by a plain handler: the response limit still applies
 		{Chain: []WrPlug{sl(10, 100)}, AE: "\x00", Method: "GET", ReqHdrs: [][2]string{{"Upgrade", "websocket"}, {"Connection", "Upgrade"}}, Script: []WrOp{{K: "write", N: 1000}}},
 		{Chain: []WrPlug{sl(10, 100)}, AE: "\x00", Method: "GET", ReqHdrs: [][2]string{{"Upgrade", "websocket"}, {"Connection", "Upgrade"}}, Script: []WrOp{{K: "set", Key: 2, Val: 1000}, {K: "head", Code: 200}, {K: "write", N: 1000}}},
